@@ -254,7 +254,9 @@ Record config := {
   c_name : string;                 (* signer.name, "" if not configured *)
   c_ttl : option Z;                (* ttl in ns *)
   c_claims : option (list (string * cval));   (* claims template, as the member list it renders *)
-  c_cache : bool }.                (* is there a cache in the request context *)
+  c_cache : bool;                  (* is there a cache in the request context *)
+  c_before : list pem_file;        (* key stores of other key holders registered before this finalizer ... *)
+  c_after : list pem_file }.       (* ... and after it (each a jwt signer of its own, no key_id) *)
 
 Definition issuer (c : config) : string := if String.eqb (c_name c) "" then "heimdall" else c_name c.
 Definition ttl_of (c : config) : Z := match c_ttl c with Some t => t | None => 300 * second end.
@@ -301,8 +303,14 @@ Definition reload (c : config) (w : world) (f : pem_file) : world * res unit :=
   | Panic => (w, Panic)
   end.
 
-(** Keys() as served by the management endpoint *)
-Definition jwks (w : world) : list jwk := s_pub (w_st w).
+(** what another key holder publishes (a holder whose creation fails is never registered) *)
+Definition others_pub (fs : list pem_file) : list jwk :=
+  flat_map (fun f => match load "" f with Ok st => s_pub st | _ => [] end) fs.
+
+(** registry.Keys() as served by the management endpoint: every holder's Keys() in
+    registration order *)
+Definition jwks (c : config) (w : world) : list jwk :=
+  others_pub (c_before c) ++ s_pub (w_st w) ++ others_pub (c_after c).
 
 (** a token verifies against a key set if the set has a key with the token's key id
     whose public key is the public half of the signing key (cryptography trusted) *)
@@ -325,7 +333,7 @@ Definition step (c : config) (w : world) (o : op) : world * oobs :=
   match o with
   | OExec sub now =>
     match exec c w sub now with
-    | (w', Ok t) => (w', XToken t (verifies t (jwks w')))
+    | (w', Ok t) => (w', XToken t (verifies t (jwks c w')))
     | (w', Err) => (w', XErr)
     | (w', Panic) => (w', XPanic)
     end
@@ -335,7 +343,7 @@ Definition step (c : config) (w : world) (o : op) : world * oobs :=
     | (w', Err) => (w', XErr)
     | (w', Panic) => (w', XPanic)
     end
-  | OJwks => (w, XJwks (jwks w))
+  | OJwks => (w, XJwks (jwks c w))
   end.
 
 Fixpoint steps (c : config) (w : world) (ops : list op) : list oobs :=
